@@ -572,20 +572,31 @@ type witnessSigLine struct {
 
 // witnessSplitNote splits a signed note the way note.Open does syntactically. ok=false: malformed.
 func witnessSplitNote(msg []byte) (text []byte, lines []witnessSigLine, ok bool) {
+	text, lines, st := witnessSplitNotePartial(msg)
+	if st != 0 {
+		return nil, nil, false
+	}
+	return text, lines, true
+}
+
+// witnessSplitNotePartial is the same with the reason of a failure: 0 well formed; 1 malformed
+// before any signature line is read; 2 a signature line is malformed (lines holds the ones before it:
+// note.Open verifies as it parses, so an invalid signature among them is reported first).
+func witnessSplitNotePartial(msg []byte) (text []byte, lines []witnessSigLine, status int) {
 	for i := 0; i < len(msg); {
 		r, size := utf8.DecodeRune(msg[i:])
 		if r < 0x20 && r != '\n' || r == utf8.RuneError && size == 1 {
-			return nil, nil, false
+			return nil, nil, 1
 		}
 		i += size
 	}
 	split := bytes.LastIndex(msg, []byte("\n\n"))
 	if split < 0 {
-		return nil, nil, false
+		return nil, nil, 1
 	}
 	text, sigs := msg[:split+1], msg[split+2:]
 	if len(sigs) == 0 || sigs[len(sigs)-1] != '\n' {
-		return nil, nil, false
+		return nil, nil, 1
 	}
 	for len(sigs) > 0 {
 		i := bytes.IndexByte(sigs, '\n')
@@ -593,28 +604,33 @@ func witnessSplitNote(msg []byte) (text []byte, lines []witnessSigLine, ok bool)
 		sigs = sigs[i+1:]
 		rest, found := bytes.CutPrefix(line, []byte("— "))
 		if !found {
-			return nil, nil, false
+			return text, lines, 2
 		}
 		name, b64, _ := strings.Cut(string(rest), " ")
 		raw, err := base64.StdEncoding.DecodeString(b64)
 		if err != nil || !witnessValidName(name) || b64 == "" || len(raw) < 5 {
-			return nil, nil, false
+			return text, lines, 2
 		}
 		lines = append(lines, witnessSigLine{Name: name, Hash: binary.BigEndian.Uint32(raw), Raw: raw[4:], Who: -1})
 	}
-	return text, lines, true
+	return text, lines, 0
 }
 
 func witnessValidName(name string) bool {
 	return name != "" && utf8.ValidString(name) && strings.IndexFunc(name, unicode.IsSpace) < 0 && !strings.Contains(name, "+")
 }
 
-// canonNote renders note bytes as "W:<text hex>:<name hex>.<key hash>.<who>;…" or "M:<first line hex>".
+// canonNote renders note bytes as "W:<text hex>:<name hex>.<key hash>.<who>;…", "T:…" (the same for the
+// lines before a malformed signature line) or "M:<first line hex>".
 func (ks *witnessKeys) canonNote(msg []byte) string {
-	text, lines, ok := witnessSplitNote(msg)
-	if !ok {
+	text, lines, st := witnessSplitNotePartial(msg)
+	if st == 1 {
 		first, _, _ := bytes.Cut(msg, []byte("\n"))
 		return "M:" + witnessHexP(first)
+	}
+	tag := "W:"
+	if st == 2 {
+		tag = "T:"
 	}
 	var parts []string
 	for _, l := range lines {
@@ -628,7 +644,7 @@ func (ks *witnessKeys) canonNote(msg []byte) string {
 	if s == "" {
 		s = "-"
 	}
-	return "W:" + witnessHexP(text) + ":" + s
+	return tag + witnessHexP(text) + ":" + s
 }
 
 // witnessParseHash is tlog.ParseHash's acceptance rule.
